@@ -248,10 +248,53 @@ func (c *Cluster) Finalise(slot int) {
 	delete(c.mig, slot)
 }
 
+// Bounce makes the owner of key's slot answer the next command that names the
+// key with MOVED to node hops[0] while handing the slot (with its keys) over to
+// that node, which does the same towards hops[1], and so on: the next request
+// for the key is redirected len(hops) times before it is served.
+func (c *Cluster) Bounce(key string, hops []int) {
+	c.mu.Lock()
+	defer c.mu.Unlock()
+	c.bounceLocked(key, hops)
+}
+
+func (c *Cluster) bounceLocked(key string, hops []int) {
+	if len(hops) == 0 {
+		return
+	}
+	slot := Slot([]byte(key))
+	from := c.Nodes[c.owner[slot]]
+	to := hops[0]
+	from.scripted = append(from.scripted, &Scripted{
+		Match: func(cmd string, args [][]byte) bool {
+			if cmd == "cluster" || cmd == "readonly" || cmd == "asking" {
+				return false
+			}
+			for _, a := range args[1:] {
+				if string(a) == key {
+					return true
+				}
+			}
+			return false
+		},
+		Raw:   resp.Bytes(resp.Err(fmt.Sprintf("MOVED %d %s", slot, c.Nodes[to].Addr))),
+		Times: 1,
+		Then: func() {
+			atomic.AddInt64(&c.Redirects, 1)
+			c.moveSlotLocked(slot, to)
+			c.bounceLocked(key, hops[1:])
+		},
+	})
+}
+
 // MoveSlot changes ownership of a slot at once (all keys move).
 func (c *Cluster) MoveSlot(slot, dst int) {
 	c.mu.Lock()
 	defer c.mu.Unlock()
+	c.moveSlotLocked(slot, dst)
+}
+
+func (c *Cluster) moveSlotLocked(slot, dst int) {
 	src := c.owner[slot]
 	if src == dst {
 		return
